@@ -83,6 +83,9 @@ def knobs_for(rng: Any) -> dict[str, Any]:
         k["short_reads"] = rng.getrandbits(32)
     if rng.random() < 0.4:
         k["short_writes"] = rng.getrandbits(32)
+    if rng.random() < 0.3:
+        # what the locale says about text files opened without an explicit encoding
+        k["locale_encoding"] = rng.choice(["latin-1", "cp1252", "ascii", "utf-16", "utf-8"])
     return k
 
 
